@@ -179,14 +179,20 @@ func runC05(c *Check) {
 			c.Unk("C05-R1", fnShort(step)+" ⟂ writes", fn, "", "anchor lost: the apply step has no UpdateState / SetHeight call in reach")
 			continue
 		}
+		// the start of an iteration: the call that picks this iteration's items
+		isPick := func(n *Node) bool { return strings.HasSuffix(CallName(n), "Cache[_]).GetItem") }
+		if len(g.Select(isPick)) == 0 {
+			c.Unk("C05-R1", fnShort(step)+" ⟂ GetItem", fn, "", "anchor lost: the apply step does not pick its items with Cache.GetItem")
+			continue
+		}
 		c.Decide("C05-R1", fnShort(step)+" ⟂ SaveBlockData<UpdateState", fn, posOf(g, isState),
 			"every state write is preceded by the block save of the same iteration",
 			"a path reaches Store.UpdateState before Store.SaveBlockData: a crash between them makes the restart raise the height over a block that was never stored",
-			g, g.FreshPrecede(isSave, isState))
+			g, g.PrecedeSince(isPick, isSave, isState))
 		c.Decide("C05-R1", fnShort(step)+" ⟂ UpdateState<SetHeight", fn, posOf(g, isHeight),
 			"every height write is preceded by the state write of the same iteration",
 			"a path reaches Store.SetHeight before Store.UpdateState: a crash between them leaves height n with state n-1 and sync fails validation forever",
-			g, g.FreshPrecede(isState, isHeight))
+			g, g.PrecedeSince(isPick, isState, isHeight))
 
 		// R3 validate-before-effects
 		validOK := g.Select(ErrNilEdge(func(t *Term) bool { return t.IsCall("block.Manager).Validate") }))
@@ -200,7 +206,7 @@ func runC05(c *Check) {
 				c.Decide("C05-R3", fnShort(step)+" ⟂ Validate<"+e.name, fn, posOf(g, e.pred),
 					e.name+" only after successful validation in the same iteration",
 					e.name+" is reachable without a successful Manager.Validate in the same iteration: an invalid block can be applied",
-					g, g.FreshPrecede(nodeSet(validOK), e.pred))
+					g, g.PrecedeSince(isPick, nodeSet(validOK), e.pred))
 			}
 			// the validated values are the ones executed and saved
 			for _, v := range validOK {
